@@ -162,10 +162,27 @@ Print Assumptions C15_recorded_covers_arrived.
    C15_1212_reply_exact.  Frame.encode is the code's encoder AS IS: the body length is written unmasked, so a list of
    127 or more ranges (body over 1023 bytes) spills into the flag bits and the frame cannot be decoded - the
    coordinator's C16 finding; the model carries those bytes *)
+(* (C15_1212_frame_bytes is the definitional unfolding of `prescribed` for a 0x1212; C15_1212_written below composes
+   it with the run) *)
 Theorem C15_1212_frame_bytes : forall hd m k miss t, m_id m = ID_1212 -> parse1211 (m_body m) = Ok t ->
   prescribed hd m k miss = encode hd ID_9212 k (reply1212 t miss).
 Proof. exact prescribed_1212. Qed.
 Print Assumptions C15_1212_frame_bytes.
+
+(* the bytes the model WRITES (wr = what goes to conn.Write) in the state after the i-th item of an upload, when that
+   item is a 0x1212: Header.Encode of the header the handler keeps (the first message's; m itself when this is the first),
+   id 0x9212, the platform serial the handler had reached, ReplyBody of exactly the missing ranges of the recorded chunks *)
+Theorem C15_1212_written : forall d split its sts i f m t s',
+  split_ok split -> Forall (wf_item d) its -> Forall (item_of d split) its -> upload_ok d [] its = true ->
+  irun d init_st its = Some sts ->
+  nth_error its i = Some (I_frame f) -> decode f = Ok m -> m_id m = ID_1212 -> parse1211 (m_body m) = Ok t ->
+  nth_error sts i = Some s' ->
+  exists pk, afind name_eqb (f_name t) (s_record s') = Some pk /\
+  let prev := before init_st sts i in
+  wr s' = encode (match h_head prev with Some x => x | None => m end) ID_9212 (h_seq prev)
+                 (reply1212 t (miss_segments (p_size pk) (sum_len (p_recs pk)) (p_recs pk))).
+Proof. exact written_1212. Qed.
+Print Assumptions C15_1212_written.
 
 (* FOR C19: whatever bytes arrive in whatever reads, the RecentTerminalMessage the connection ends with (its phone number
    names the directory the default file handler stores under) was produced by Frame.decode, so its BCD phone field
